@@ -54,10 +54,8 @@ func c03MapTNode(n parquet.Node, t reflect.Type, sb *strings.Builder) bool {
 		return false
 	}
 	sb.WriteString(",")
-	// an optional non-pointer map value gets no optional wrapper in writeRowsFuncOfMap: outside the model
-	if v := kv.Fields()[1]; v.Optional() && t.Elem().Kind() != reflect.Ptr {
-		return false
-	}
+	// an optional non-pointer map value (parquet-value:",optional") gets the optional wrapper in
+	// writeRowsFuncOfMap like a struct field does (since the round-4 repair)
 	return c03TNode(kv.Fields()[1], t.Elem(), true, sb)
 }
 
@@ -196,7 +194,7 @@ func RunC03TypedMirror(ctx *core.Ctx) {
 	ncases := ctx.Scale(8, 80)
 	var wg sync.WaitGroup
 	sem := make(chan struct{}, 16)
-	for _, e := range append(c03Types(), gen.MapCatalog...) {
+	for _, e := range append(append(c03Types(), gen.MapCatalog...), gen.MapValueOptCatalog...) {
 		var tsb strings.Builder
 		if e.Type.Kind() != reflect.Struct || !c03TNode(e.Schema, e.Type, false, &tsb) {
 			ctx.Hist("typedmirror-type", "outside the wrapper grammar of the model")
